@@ -61,6 +61,6 @@ UNIT = {
     ],
     'unverified_surroundings': {'C18': ['heap_manager.cc requestChunk, removeHeapNode, upHeap, downHeap, findNodeAtPosition'], 'C12': ['heap_manager.cc requestChunk and heap maintenance', 'orig_grid.cc, malloc_style.cc']},
     'jobs': [
-        job('heap_recycleChunk', 'heap_manager__recycleChunk', ST + HP),
+        job('heap_recycleChunk', 'heap_manager__recycleChunk', ST + HP, tier='thorough', timeout=7200),    # ~10 min: thorough tier only
     ],
 }
